@@ -185,6 +185,21 @@ def max_abs(a: Any, vals: list[Any]) -> F:
     return m
 
 
+def min_abs_nonzero(a: Any, vals: list[Any]) -> F | None:
+    """Smallest non-zero exact magnitude over all sub-expressions: used to recognise float underflow."""
+    try:
+        r = evb(a, vals)
+    except IllConditioned:
+        r = BOT
+    cands = [] if (r is BOT or r[0] == 0) else [abs(r[0])]
+    kids = [a[2]] if a[0] == "un" else ([a[2], a[3]] if a[0] == "bin" else [])
+    for k in kids:
+        m = min_abs_nonzero(k, vals)
+        if m is not None:
+            cands.append(m)
+    return min(cands) if cands else None
+
+
 def div_by_zero_somewhere(a: Any, vals: list[Any]) -> bool:
     """True iff some '/' node has an exactly-zero (non-missing) divisor."""
     if a[0] in ("leaf", "const"):
